@@ -12,6 +12,7 @@ from ..lib import core, storegen, storegen2
 from ..lib import walk as W
 from ..lib.core import Failure, Disagreement
 from ..lib.storeimpl2 import Impl2
+from ..lib.storeimpl import Impl
 from ..extract import copyshape as _ex
 
 PROP = "C20"
@@ -29,6 +30,7 @@ THEOREMS = [
     "Nix.C20.copyProperty_source",
     "Nix.C20.copyIntoBlock_source",
     "Nix.C20.copySection_source",
+    "Nix.C20.copyFrameIntoBlock_is_generic",
     "Nix.C20.copy_complete",
     "Nix.C20.internal_links",
     "Nix.C20.ids_kept",
@@ -98,8 +100,52 @@ UUID_RE = re.compile(r"^[0-9a-f]{8}-[0-9a-f]{4}-4[0-9a-f]{3}-[89ab][0-9a-f]{3}-[
 # correspondence: random two-file histories with copies, model driver vs real nixio
 # =========================================================================================
 
-COPY_KINDS = ["block", "data_array", "tag", "multi_tag", "section", "section", "property"]
-CNAME = {"data_array": "data_arrays", "tag": "tags", "multi_tag": "multi_tags"}
+COPY_KINDS = ["block", "data_array", "data_frame", "tag", "multi_tag", "section", "section", "property"]
+CNAME = {"data_array": "data_arrays", "data_frame": "data_frames", "tag": "tags", "multi_tag": "multi_tags"}
+
+
+class ImplF(Impl):
+    """the shared one-file runner plus `Block.create_data_frame` (C20's histories copy data frames too)"""
+
+    def _run(self, op):
+        if op[0] == "create_frame":
+            owner = self.nav(op[1])
+            if not hasattr(owner, "create_data_frame"):
+                raise AttributeError("create_data_frame")
+            owner.create_data_frame(self.name_arg(op[2]), op[3], col_dict=OrderedDict([("a", int), ("b", float)]),
+                                    data=[(1, 0.5), (2, 1.5)])
+            return None
+        return Impl._run(self, op)
+
+
+class Impl20(Impl2):
+    """two-file runner with data frames: creation and `create_data_frame(copy_from=…)`"""
+
+    def __init__(self, path0, path1, literal_uuid_names=()):
+        self.files = [ImplF(path0, literal_uuid_names), ImplF(path1, literal_uuid_names)]
+        self.cur = 0
+
+    def _copy(self, op):
+        if op[0] == "copy_into" and op[2] == "data_frame":
+            _, dp, what, sf, sp, name, keep = op
+            blk = self.impl.nav(dp)
+            src = self.files[sf].nav(sp)
+            if not isinstance(blk, nixio.Block):
+                raise AttributeError("not a block")
+            blk.create_data_frame(name=name, copy_from=src, keep_copy_id=keep)
+            return None
+        return Impl2._copy(self, op)
+
+
+def frame_ents(impl):
+    """data frames reachable through the public API (storegen.inventory does not list them)"""
+    out = []
+    for bi, b in enumerate(impl.f.blocks):
+        bp = ["data", bi if storegen.real_uuid(b.name) else b.name]
+        for i, e in enumerate(b.data_frames):
+            out.append(storegen.Ent("data_frame", bp + ["data_frames", i if storegen.real_uuid(e.name) else e.name],
+                                    e.name, b.name))
+    return out
 
 
 class Gen20(storegen2.Gen2):
@@ -110,6 +156,14 @@ class Gen20(storegen2.Gen2):
         self.stats = {"copy_ok": 0, "copy_refused": 0, "near_mutations": 0, "same_file": 0, "cross_file": 0,
                       "keep": 0, "fresh": 0, "shallow": 0, "kinds": {}}
 
+    def frames(self, fi):
+        keep = self.impl.cur
+        self.impl.cur = fi
+        try:
+            return frame_ents(self.impl)
+        finally:
+            self.impl.cur = keep
+
     def under(self, fi, prefix):
         return [e for e in self.inv(fi) if e.path[:len(prefix)] == prefix]
 
@@ -118,6 +172,11 @@ class Gen20(storegen2.Gen2):
         rng = self.rng
         self.use(fi)
         sub = self.under(fi, prefix)
+        fr = [e for e in self.frames(fi) if e.path[:len(prefix)] == prefix]
+        if fr and (not sub or rng.random() < 0.3):
+            self.stats["near_mutations"] += 1
+            self.do(["set_attr", rng.choice(fr).path, rng.choice(["definition", "type"]), rng.choice(["x", "é", None])])
+            return
         if not sub:
             return
         self.stats["near_mutations"] += 1
@@ -161,15 +220,23 @@ class Gen20(storegen2.Gen2):
             da = self.pick(src_ents, "data_array")
             self.do(["create", da.path[:2], "multi_tag", rng.choice(["mt", "m2", "é"]), "t", da.path])
             made = True
+        src_frames = self.frames(sf)
+        if not src_frames and "block" in have and rng.random() < 0.3:
+            self.use(sf)
+            self.do(["create_frame", self.pick(src_ents, "block").path, rng.choice(["fr", "f2", "é"]), "t"])
+            src_frames = self.frames(sf)
+            made = True
         if made:
             self.use(df)
             src_ents = self.inv(sf)
             have = {e.kind for e in src_ents}
+        src_ents = src_ents + src_frames
+        have = {e.kind for e in src_ents}
         dst_ents = self.inv(df)
         kinds = [k for k in COPY_KINDS if k in have]
         if not kinds:
             return False
-        kind = rng.choice([k for k in kinds for _ in range(1 if k == "block" else 3)])
+        kind = rng.choice([k for k in kinds for _ in range(1 if k in ("block", "data_frame") else 3)])
         src = self.pick(src_ents, kind if rng.random() < 0.95 else None)
         if src is None:
             return False
@@ -181,7 +248,7 @@ class Gen20(storegen2.Gen2):
             out = self.do(["copy_block", sf, src.path, name, keep])
             self.probe([], "data", "file")
             dest_path = ["data"]
-        elif kind in ("data_array", "tag", "multi_tag"):
+        elif kind in ("data_array", "data_frame", "tag", "multi_tag"):
             blk = self.pick(dst_ents, "block" if rng.random() < 0.95 else None)
             if blk is None:
                 return False
@@ -237,7 +304,7 @@ class Gen20(storegen2.Gen2):
 
 def run_history20(ctx, rng, steps, tag):
     p0, p1 = ctx.tmpfile("c20-%s-0.nix" % tag), ctx.tmpfile("c20-%s-1.nix" % tag)
-    impl = Impl2(p0, p1, literal_uuid_names=(storegen.LIT_UUID,))
+    impl = Impl20(p0, p1, literal_uuid_names=(storegen.LIT_UUID,))
     gen = Gen20(rng, impl, "links")
     try:
         for k in range(steps):
@@ -326,7 +393,7 @@ def correspondence(ctx):
     for ci, case in enumerate(core.load_corpus(PROP)):
         ops = case["ops"]
         p0, p1 = ctx.tmpfile("c20-corpus-%d-0.nix" % ci), ctx.tmpfile("c20-corpus-%d-1.nix" % ci)
-        impl = Impl2(p0, p1, literal_uuid_names=(storegen.LIT_UUID,))
+        impl = Impl20(p0, p1, literal_uuid_names=(storegen.LIT_UUID,))
         try:
             outs = [impl.run(op) for op in ops]
         finally:
@@ -455,6 +522,22 @@ def scan(f):
                 visit(o[nm])
     visit(f._h5file["/"])
     return addrs, ids
+
+
+def reach_addrs(o):
+    """addresses of everything reachable from the HDF5 object `o` by hard links (no data is read)"""
+    seen = set()
+
+    def visit(x):
+        a = addr(x)
+        if a in seen:
+            return
+        seen.add(a)
+        if isinstance(x, h5py.Group):
+            for nm in x:
+                visit(x[nm])
+    visit(o)
+    return seen
 
 
 def all_addrs(f):
@@ -736,7 +819,7 @@ def mutations(rng, kind, ent, blk, f, avoid=frozenset()):
 
     def outside_array():
         for a in blk.data_arrays:
-            if addr(h5obj(a)) not in avoid:
+            if not (reach_addrs(h5obj(a)) & avoid):      # neither the array nor anything it links (metadata, sources)
                 return a
         return blk.create_data_array("lnk-%d" % rng.randrange(10 ** 6), "t", data=[1.0, 2.0])
 
